@@ -120,6 +120,145 @@ def _target_for(term, val):
     return term['otherwise']
 
 
+def _mut_borrowed(body):
+    """locals whose address is taken mutably / raw somewhere: their value may change behind our back"""
+    out = set()
+    for blk in body.blocks:
+        for s in blk['stmts']:
+            if s['k'] == 'assign' and s['rv']['k'] in ('ref', 'addr', 'rawptr', 'address_of'):
+                rv = s['rv']
+                pl = rv.get('place')
+                if pl is None:
+                    continue
+                if rv['k'] != 'ref' or rv.get('mut') or rv.get('bk') not in (None, 'shared', 'Shared', 'fake'):
+                    if not any(e[0] == 'deref' for e in pl['p']):
+                        out.add(pl['l'])
+    return out
+
+
+def fold_constants(body, adts):
+    """Forward constant propagation of plain locals holding a bool / integer / enum variant (optimistic, SCCP-like):
+    a switch whose scrutinee is the same known value on every feasible way into its block becomes a goto."""
+    blocks = body.blocks
+    n = len(blocks)
+    noprop = _mut_borrowed(body)
+    TOP = None
+    instate = [TOP] * n
+    instate[0] = {}
+    decided = {}
+    work = [0]
+
+    def op_val(o, known):
+        if o.get('k') == 'const':
+            v = o.get('val')
+            if isinstance(v, bool):
+                return ('bool', v)
+            if v is not None and o.get('ty') in ('isize', 'usize', 'u8', 'u16', 'u32', 'u64', 'i8', 'i16', 'i32', 'i64', 'u128', 'i128', 'char'):
+                try:
+                    return ('int', int(v))
+                except ValueError:
+                    return None
+            return None
+        if o.get('k') in ('copy', 'move') and not o['place']['p']:
+            return known.get(o['place']['l'])
+        return None
+
+    def transfer(bi, known):
+        known = dict(known)
+        blk = blocks[bi]
+        for s in blk['stmts']:
+            if s['k'] == 'dead':
+                continue
+            if s['k'] == 'setdiscr':
+                known.pop(s['place']['l'], None)
+                continue
+            if s['k'] != 'assign':
+                continue
+            pl = s['place']
+            if pl['p']:
+                k = known.get(pl['l'])
+                if not (k and k[0] == 'variant' and pl['p'][0][0] == 'downcast' and pl['p'][0][1] == k[2]):
+                    if not any(e[0] == 'deref' for e in pl['p']):
+                        known.pop(pl['l'], None)
+                continue
+            rv = s['rv']
+            val = None
+            if rv['k'] == 'use':
+                val = op_val(rv['op'], known)
+            elif rv['k'] == 'agg' and rv.get('ak') == 'adt':
+                val = ('variant', rv['path'], rv['variant'])
+            elif rv['k'] == 'discr' and not rv['place']['p']:
+                k = known.get(rv['place']['l'])
+                if k and k[0] == 'variant':
+                    d = _discr_of(k[1], k[2], adts)
+                    if d is not None:
+                        val = ('int', d)
+            elif rv['k'] == 'un' and rv['op'] == 'Not':
+                k = op_val(rv['a'], known)
+                if k and k[0] == 'bool':
+                    val = ('bool', not k[1])
+            if val is None or pl['l'] in noprop:
+                known.pop(pl['l'], None)
+            else:
+                known[pl['l']] = val
+        return known
+
+    def meet(a, b):
+        return {k: v for k, v in a.items() if b.get(k) == v}
+
+    while work:
+        bi = work.pop()
+        known = transfer(bi, instate[bi])
+        t = blocks[bi]['term']
+        succs = None
+        if t['k'] == 'switch':
+            v = op_val(t['discr'], known)
+            if v is not None and v[0] in ('bool', 'int'):
+                val = ('1' if v[1] else '0') if v[0] == 'bool' else str(v[1])
+                tgt = _target_for(t, val)
+                decided[bi] = tgt
+                succs = [tgt]
+            else:
+                decided.pop(bi, None)
+        if t['k'] in ('call', 'drop') or t['k'] == 'assert':
+            if t['k'] == 'call' and not t['dest']['p']:
+                known.pop(t['dest']['l'], None)
+            elif t['k'] == 'call':
+                known.pop(t['dest']['l'], None)
+            if t['k'] == 'drop' and not t['place']['p']:
+                known.pop(t['place']['l'], None)
+        if succs is None:
+            succs = body.succs(bi, True)
+        for s in succs:
+            if instate[s] is TOP:
+                instate[s] = dict(known)
+                work.append(s)
+            else:
+                m = meet(instate[s], known)
+                if m != instate[s]:
+                    instate[s] = m
+                    work.append(s)
+    # a decision is final only if it still holds with the fixpoint states
+    final = {}
+    for bi, tgt in decided.items():
+        if instate[bi] is TOP:
+            continue
+        known = transfer(bi, instate[bi])
+        v = op_val(blocks[bi]['term']['discr'], known)
+        if v is not None and v[0] in ('bool', 'int'):
+            val = ('1' if v[1] else '0') if v[0] == 'bool' else str(v[1])
+            final[bi] = _target_for(blocks[bi]['term'], val)
+    if not final:
+        return body
+    j = copy.deepcopy(body.j)
+    for bi, tgt in final.items():
+        old = j['blocks'][bi]['term']
+        j['blocks'][bi]['term'] = {'k': 'goto', 'target': tgt, 'threaded': True, 'at': old.get('at'), 'folded_switch': True}
+    nb = Body(j, body.crate)
+    nb.inlined = getattr(body, 'inlined', None)
+    return nb
+
+
 def thread_jumps(body, adts=None):
     """Returns a new Body with determinable switch edges threaded (or the same body if nothing changed)."""
     if adts is None:
@@ -129,8 +268,8 @@ def thread_jumps(body, adts=None):
             if c is not None:
                 adts.update(c.adts)
     j = None
-    changed_any = False
-    cur = body
+    cur = fold_constants(body, adts)
+    changed_any = cur is not body
     for _ in range(MAX_ROUNDS):
         blocks = cur.blocks
         n = len(blocks)
